@@ -17,7 +17,7 @@ func init() {
 	core.Register(&core.Prop{
 		ID:    "C20",
 		Level: "fault_enumeration",
-		Rule: "for every generated template (all standard tags incl. tablerow, cycle, include from the cache, capture, nested loops, raw/comment, every trim-marker position, a harness-registered tag and block): one fault-free FRender with a counting writer gives W Write calls and output O; then for EVERY k in 0..W-1 and four fault shapes (accept nothing; accept half; accept all but the last byte; fail once then accept again) the render is repeated with the injecting writer through FRender or ParseAndFRender. Non-trivial = a (template, k, shape) whose fault was actually reached; distinct = distinct (template source, k, shape).",
+		Rule: "for every generated template (all standard tags incl. tablerow, cycle, include from the cache, capture, nested loops, raw/comment, every trim-marker position, a harness-registered tag and block, and application tags/blocks calling ExpandTagArg, InnerString, RenderChildren, RenderFile, EvaluateString, Set/Get): one fault-free FRender with a counting writer gives W Write calls and output O; then for EVERY k in 0..W-1 and four fault shapes (accept nothing; accept half; accept all but the last byte; fail once then accept again) the render is repeated with the injecting writer through FRender or ParseAndFRender. Non-trivial = a (template, k, shape) whose fault was actually reached; distinct = distinct (template source, k, shape).",
 		Exhaustive: func(string) bool { return true },
 		Assumptions: []string{
 			"the injected error is a unique sentinel; 'carrying that failure' is accepted as: reachable through Cause()/Unwrap() chains, or its text contained in Error()",
@@ -96,6 +96,7 @@ func c20Engine() *liquid.Engine {
 		s, err := ctx.InnerString()
 		return "[" + s + "]", err
 	})
+	RegisterCustom(e)
 	for name, src := range map[string]string{
 		"inc/a.html": "A{{ n }}{% for i in (1..2) %}{{ i }},{% endfor %}",
 		"inc/b.html": " {%- assign q = 5 -%} B{{ q }} ",
@@ -120,6 +121,9 @@ var c20Fixed = []string{
 	"{% ublock %}{% tablerow i in (1..2) %}{{ i }}{% endtablerow %}{% endublock %}", "text {{- nothing -}} text",
 	"a long run of literal text, well over sixty-four bytes, that precedes a table row so that a partial write has room to matter {% tablerow i in (1..2) %}{{ i }}{% endtablerow %} and more text after it",
 	"{{ s | append: ' padded out to a rather long value so that the chunk is big ........................................' }}{% tablerow i in arr cols: 2 %}x{% endtablerow %}",
+	// application tags and blocks over render.Context (custom.go): their output reaches the writer through the library's wrappers
+	"a{% xecho pre-{{ n }}-post %}b{% xwrap {{ s }} %}in{{ n }}{% endxwrap %}c{% xtwice %}{{ n }},{% endxtwice %}d", "{% xfile inc/a.html %}|{% xbfile inc/c.html %}x{% endxbfile %}|{% xwhen t %}yes{{ s }}{% endxwhen %}",
+	"{% for i in (1..2) %}{% xwrap w %}{% tablerow j in (1..2) %}{{ j }}{% endtablerow %}{% endxwrap %}{% xeval i | plus: 1 %}{% endfor %} {%- xget n -%} tail", "x {%- xecho {{- s -}} -%} y{% xset zz = 3 %}{{ zz }}{% xget zz %}",
 	"0123456789012345678901234567890123456789012345678901234567890123456789{% for i in (1..2) %}{% cycle 'a', 'b' %}{% endfor %}0123456789012345678901234567890123456789{% include 'inc/c.html' %}",
 }
 
@@ -197,6 +201,7 @@ func runC20(c *core.Ctx) {
 					entry = "ParseAndFRender"
 					// ParseAndFRender parses without a path; includes resolve relative to ""
 					e2src := strings.ReplaceAll(strings.ReplaceAll(src, "'inc/", "'vcache/inc/"), "\"inc/", "\"vcache/inc/")
+					e2src = strings.ReplaceAll(e2src, "file inc/", "file vcache/inc/")
 					res = core.ParseAndFRender(e, fw, e2src, b)
 				} else {
 					res = core.FRender(tpl, fw, b)
